@@ -416,6 +416,28 @@ class Executor:
                 if obj.store is None and isinstance(tgt.value, ast.Name):
                     obj = self.own_store(tgt.value.id, st)
                 idx = self.eval_index(tgt.slice, st)
+                if len(idx) == obj.ndim and idx and all(
+                        isinstance(k, SBag) and getattr(k, 'coord', None) == ax
+                        for ax, k in enumerate(idx)):
+                    # a[ys, xs] = v with the coordinates of one selection (np.nonzero, possibly
+                    # narrowed): the pixels of the selection themselves are written
+                    b0 = idx[0]
+                    for k in idx[1:]:
+                        if k.pred is not b0.pred and (getattr(k, 'mask_id', None) is None
+                                                      or k.mask_id != getattr(b0, 'mask_id', None)):
+                            raise Unsupported('coordinate store with different selections')
+                    st.check('coordinate selection has the shape of the array written', z3.And(*[
+                        num_term(x) == num_term(y) for x, y in zip(b0.shape, obj.shape)]))
+                    m = SArr(b0.shape, lambda p, b0=b0: to_bool(b0.pred(p)), 'bool')
+                    if isinstance(v, SBag):
+                        if v.pred is not b0.pred and (getattr(v, 'mask_id', None) is None
+                                                      or v.mask_id != getattr(b0, 'mask_id', None)):
+                            raise Unsupported('stored values selected differently from the target')
+                        v = SArr(b0.shape, v.val, v.kind)
+                    elif isinstance(v, (SArr, SSeq)):
+                        raise Unsupported('coordinate store of a full array')
+                    self.write_arr(obj, (m,), v, st)
+                    return
                 self.write_arr(obj, idx, v, st)
             elif isinstance(obj, SObj) and obj.cls == '__dict__':
                 ks = self.eval(tgt.slice, st)
@@ -1211,16 +1233,29 @@ class Executor:
         if isinstance(a, SBag) or isinstance(b, SBag):
             bag = a if isinstance(a, SBag) else b
             other = b if isinstance(a, SBag) else a
+            def bkind(x):
+                if isinstance(x, SBag):
+                    return x.kind
+                return 'bool' if is_bool(x) else ('int' if is_intlike(x) else 'real')
+            kinds = {bkind(a), bkind(b)}
+            if isinstance(op, (ast.Div, ast.Pow)) or 'real' in kinds:
+                rk = 'real'
+            elif isinstance(op, (ast.BitAnd, ast.BitOr, ast.BitXor)) and kinds == {'bool'}:
+                rk = 'bool'
+            elif op is None:
+                rk = 'real'
+            else:
+                rk = 'int'
             if isinstance(a, SBag) and isinstance(b, SBag):
                 if a.pred is not b.pred and (getattr(a, 'mask_id', None) is None
                                              or a.mask_id != getattr(b, 'mask_id', None)):
                     raise Unsupported('arithmetic on bags selected by different masks')
-                return _bag_like(a, lambda p: f(a.val(p), b.val(p)), 'real')
+                return _bag_like(a, lambda p: f(a.val(p), b.val(p)), rk)
             if isinstance(other, (SArr, SSeq)):
                 raise Unsupported('bag combined with a full array')
             if bag is a:
-                return _bag_like(bag, lambda p: f(bag.val(p), other), 'real')
-            return _bag_like(bag, lambda p: f(other, bag.val(p)), 'real')
+                return _bag_like(bag, lambda p: f(bag.val(p), other), rk)
+            return _bag_like(bag, lambda p: f(other, bag.val(p)), rk)
         kind = None
         if isinstance(op, (ast.Div,)):
             kind = 'real'
@@ -1328,6 +1363,10 @@ class Executor:
                 r = a in b.fields
                 return (not r) if isinstance(op, ast.NotIn) else r
             raise Unsupported('membership test')
+        if isinstance(a, SBag) or isinstance(b, SBag):
+            r = self.lift2(lambda x, y: self.compare(op, x, y, st), a, b)
+            r.kind = 'bool'
+            return r
         if isinstance(a, (SArr, SSeq)) or isinstance(b, (SArr, SSeq)):
             r = self.lift2(lambda x, y: self.compare(op, x, y, st), a, b)
             r.kind = 'bool'
@@ -1492,6 +1531,21 @@ class Executor:
             if isinstance(v, (SArr,)):
                 idx = self.eval_index(node.slice, s)
                 out.append((s, self.index_arr(v, idx, s)))
+                continue
+            if isinstance(v, SBag):
+                # sub-selection of a bag by a boolean bag over the same selection
+                k = self.unwrap(self.eval1(node.slice, s), s, 'index')
+                if not (isinstance(k, SBag) and k.kind == 'bool') or (
+                        k.pred is not v.pred and (getattr(k, 'mask_id', None) is None
+                                                  or k.mask_id != getattr(v, 'mask_id', None))):
+                    raise Unsupported('subscript of a selection by something else than a boolean '
+                                      'selection over the same elements')
+                sub = SBag(v.shape, lambda p, v=v, k=k: z3.And(to_bool(v.pred(p)), to_bool(k.val(p))),
+                           v.val, v.kind)
+                sub.mask_id = ('sub', getattr(v, 'mask_id', None), id(k))
+                if hasattr(v, 'coord'):
+                    sub.coord = v.coord
+                out.append((s, sub))
                 continue
             for s2, k in self.eval(node.slice, s):
                 if isinstance(s2, tuple):
